@@ -56,7 +56,7 @@ def _exec_small(args):
     # 1. bulk: the whole grid in one float64 array through the constructor (ascending -> monotone clause)
     out.append(x_store.observe(fx, np, fmt, modes, vals, 'ndarray-f64', 'ctor', props, True, {'sorted': True}))
     # 2. every grid point as a scalar Python float, route rotating over the four scalar routes
-    sroutes = ['ctor', 'call', 'set_val', 'setitem', 'setitem-2d', 'call-reset', 'recfg']
+    sroutes = ['ctor', 'call', 'set_val', 'setitem', 'setitem-2d', 'call-reset', 'recfg', 'setitem-reuse']
     for j, route in enumerate(sroutes):
         sub = vals[(rot + j) % len(sroutes)::len(sroutes)]
         if sub:
@@ -76,13 +76,13 @@ def _exec_small(args):
         pool = bvals
     for c, r in scal:
         out.append(x_store.observe(fx, np, fmt, modes, pool if tier == 'thorough' and r == 'ctor' else bvals, c, r, props, False))
-    aroutes = ['ctor', 'call', 'set_val', 'setitem-slice', 'call-reset', 'recfg']
+    aroutes = ['ctor', 'call', 'set_val', 'setitem-slice', 'call-reset', 'recfg', 'setitem-reuse']
     acar = [c for c in x_store.ARRAY_CARRIERS if c != 'ndarray-f64']
     bv = bvals if len(bvals) % 2 == 0 else bvals[:-1]
     for i, c in enumerate(acar):
         routes = aroutes if tier == 'thorough' else [aroutes[(rot + i) % len(aroutes)]]
         for r in routes:
-            if r == 'setitem-slice' and c in ('nested-list', 'nested-tuple', 'ndarray-2d'):
+            if r in ('setitem-slice', 'setitem-reuse') and c in ('nested-list', 'nested-tuple', 'ndarray-2d'):
                 continue
             out.append(x_store.observe(fx, np, fmt, modes, bv, c, r, props, True))
     # 3b. complex inputs: each component quantized on its own (boundary values; real part ascending, imaginary descending)
@@ -151,7 +151,7 @@ def _exec_wide(args):
     rng = random.Random(seed)
     props = PROPS_FOR[pid]
     out = []
-    sroutes = ['ctor', 'call', 'set_val', 'setitem', 'setitem-2d', 'call-reset', 'recfg']
+    sroutes = ['ctor', 'call', 'set_val', 'setitem', 'setitem-2d', 'call-reset', 'recfg', 'setitem-reuse']
     for _ in range(count):
         s = rng.random() < 0.5
         w = rng.choice([1, 2, 3, 5, 7, 8, 9, 10, 15, 16, 17, 24, 31, 32, 33, 40, 47, 48, 51, 52, rng.randint(1, 52), rng.randint(1, 10)])
@@ -168,7 +168,7 @@ def _exec_wide(args):
         if rng.random() < 0.5:
             ac = rng.choice(['ndarray-f64', 'list', 'tuple', 'ndarray-i64', 'nested-list', 'ndarray-f32', 'ndarray-i32', 'ndarray-u8',
                             'list-decstr', 'nested-tuple', 'ndarray-2d'])
-            ar = rng.choice(['ctor', 'call', 'set_val', 'setitem-slice', 'call-reset', 'recfg'] if not (ac.startswith('nested') or ac == 'ndarray-2d') else ['ctor', 'call', 'set_val', 'recfg'])
+            ar = rng.choice(['ctor', 'call', 'set_val', 'setitem-slice', 'call-reset', 'recfg', 'setitem-reuse'] if not (ac.startswith('nested') or ac == 'ndarray-2d') else ['ctor', 'call', 'set_val', 'recfg'])
             vv = sorted(vals) if len(vals) % 2 == 0 else sorted(vals)[:-1]
             if vv:
                 out.append(x_store.observe(fx, np, (s, w, f), (r, o), vv, ac, ar, props, True, {'sorted': True}))
